@@ -326,6 +326,26 @@ func (r *report) print(hs []*harnessInfo, stats []*interp.HarnessStats, solv *sy
 		}
 		sort.Strings(ps)
 		fmt.Printf("  %-40s paths{%s} decisions=%d steps=%d depth=%d findings=%d wall=%.1fs\n", h.fn.Name(), strings.Join(ps, " "), st.Decisions, st.Steps, st.MaxDepth, len(st.Findings), st.WallSecs)
+		for _, mp := range []map[string]int{st.ForkSites, st.MergeFails} {
+			type kv struct {
+				k string
+				n int
+			}
+			var kvs []kv
+			for k, n := range mp {
+				kvs = append(kvs, kv{k, n})
+			}
+			sort.Slice(kvs, func(a, b int) bool { return kvs[a].n > kvs[b].n })
+			for j, e := range kvs {
+				if j >= 12 {
+					break
+				}
+				fmt.Printf("      %6d %s\n", e.n, e.k)
+			}
+			if len(kvs) > 0 {
+				fmt.Println("      --")
+			}
+		}
 	}
 	fmt.Printf("   traces validated against the native build: %d/%d; inconclusive items: %d\n", r.validated, r.witnessTried, r.inconclusive)
 }
